@@ -912,6 +912,12 @@ func (dc *DirectConnection) WriteSetStatement() error {
 
 	unused := dc.sessionVariables.GetUnusedAndClear()
 	for _, v := range unused {
+		switch v.Name() {
+		case mysql.CharacterSetClient, mysql.CharacterSetConnection, mysql.CharacterSetResults:
+			// already reset by the SET NAMES at the head of this statement; "= DEFAULT" here
+			// would replace what SET NAMES just assigned by the server's global default
+			continue
+		}
 		appendSetVariableToDefault(&setVariableSQL, v.Name())
 	}
 
